@@ -6,6 +6,7 @@ from typing import List, Optional, Tuple
 
 from ..astutil import arg_or_kw, body_walk, dotted, is_const, kwarg, norm, positional_params, short, walk_local
 from ..cfg import cfg_of
+from ..flow import Defs
 from ..common import returned_exprs
 from ..linform import poly, p_add, show
 from ..state import check_hidden_state, self_check
@@ -317,7 +318,42 @@ def check_matrices(ctx):
         eye_ok = isinstance(a0, ast.Call) and norm(a0.func).endswith("eye") and len(a0.args) == 1 and norm(a0.args[0]).replace(" ", "") in ("2**self.num_qubits-2**self.wrapped_gate.num_qubits",)
         ok = eye_ok and norm(a1) == W
         detail = f"blocks are ({short(a0)}, {short(a1)}): the identity block of size 2**n_total - 2**n_wrapped must come first, followed by the wrapped matrix"
-    ctx.check(ok, R3, m.key, "diag(eye(2**n_total - 2**n_wrapped), wrapped.matrix)", detail, m)
+    lost = False
+    if not ok and len(r) == 1 and isinstance(r[0], ast.Call) and norm(r[0].func).endswith("diag"):
+        # the same call with its blocks bound to locals first (`blocks = [eye(k), wrapped]; diag(*blocks)`, sizes through temporaries)
+        dm = Defs(m.node)
+
+        def _res(e, depth=0):
+            if isinstance(e, ast.Name) and depth < 4:
+                sd = dm.single_def(e.id)
+                return _res(sd, depth + 1) if isinstance(sd, ast.AST) else e
+            return e
+
+        args = list(r[0].args)
+        if len(args) == 1 and isinstance(args[0], ast.Starred):
+            lst = _res(args[0].value)
+            args = list(lst.elts) if isinstance(lst, (ast.List, ast.Tuple)) else args
+        args = [_res(a) for a in args]
+        if len(args) == 2:
+            is_eye = [isinstance(a, ast.Call) and norm(a.func).endswith("eye") for a in args]
+            is_w = [norm(a) == W for a in args]
+            size_locals = {n.id for n in ast.walk(r[0].args[0]) if isinstance(n, ast.Name)} - {"self", "sympy", "np"} if is_eye[0] and not isinstance(r[0].args[0], ast.Starred) else {"?"}
+            if is_eye[0] and is_w[1] and not size_locals and _size_is_right(args[0].args[0] if args[0].args else None):
+                ok = True  # another spelling of 2**n_total - 2**n_wrapped (evaluated by the checker on a grid of widths, n_total = n_wrapped + n_controls)
+            elif is_eye[0] and is_w[1] and not size_locals:
+                detail = f"blocks are ({short(args[0])}, {short(args[1])}): the identity block must have size 2**n_total - 2**n_wrapped"
+            elif is_eye[0] and is_w[1]:
+                lost = True  # right order of the blocks; the size of the identity block is spelt through temporaries this rule does not fold
+            elif is_w[0] and is_eye[1]:
+                detail = f"blocks are ({short(args[0])}, {short(args[1])}): the wrapped matrix comes first, i.e. it acts when the controls are |0...0>"
+            else:
+                lost = True
+        else:
+            lost = True
+    if lost:
+        ctx.undecided(R3, m.key, f"ControlledGate.matrix builds its diagonal blocks through locals this rule cannot fold ({short(r[0])})", m)
+    else:
+        ctx.check(ok, R3, m.key, "diag(eye(2**n_total - 2**n_wrapped), wrapped.matrix)", detail, m)
     check_flag_provenance(ctx, R3)
     # attributes poked onto frozen instances that influence dagger
     cgd = mod.classes["CustomGateDefinition"]
@@ -327,6 +363,45 @@ def check_matrices(ctx):
         r = returned_exprs(call.node)
         ok = len(r) == 1 and isinstance(r[0], ast.Call) and (dotted(r[0].func) or "").endswith("MatrixFactoryGate") and norm(arg_or_kw(r[0], 0, "name")) == "self.gate_name" and norm(arg_or_kw(r[0], 1, "matrix_factory")) == "CustomGateMatrixFactory(self)" and norm(arg_or_kw(r[0], 3, "num_qubits")) == "self._n_qubits"
         ctx.check(ok, R3, call.key, "custom gate instance = MatrixFactoryGate(name, factory(self), params, n_qubits)", f"CustomGateDefinition.__call__ returns {short(r[0]) if r else None}", call)
+
+
+def _size_is_right(e) -> bool:
+    """Is the integer expression `e` over self.num_qubits / self.wrapped_gate.num_qubits / self.num_control_qubits equal to
+    2**n_total - 2**n_wrapped? Decided by the checker's own evaluation of the extracted arithmetic on the grid 1 <= w, k <= 5 with
+    n_total = w + k (sums of a few monomials in 2**w and 2**k that agree on 25 points are the same function)."""
+    if e is None:
+        return False
+
+    def ev(x, w, k):
+        if isinstance(x, ast.Constant) and isinstance(x.value, int):
+            return x.value
+        t = norm(x)
+        if t == "self.wrapped_gate.num_qubits":
+            return w
+        if t == "self.num_control_qubits":
+            return k
+        if t == "self.num_qubits":
+            return w + k
+        if isinstance(x, ast.BinOp):
+            a, b = ev(x.left, w, k), ev(x.right, w, k)
+            if isinstance(x.op, ast.Add):
+                return a + b
+            if isinstance(x.op, ast.Sub):
+                return a - b
+            if isinstance(x.op, ast.Mult):
+                return a * b
+            if isinstance(x.op, ast.Pow) and 0 <= b <= 64:
+                return a ** b
+            if isinstance(x.op, ast.LShift) and 0 <= b <= 64:
+                return a << b
+        if isinstance(x, ast.Call) and dotted(x.func) == "int" and len(x.args) == 1:
+            return ev(x.args[0], w, k)
+        raise ValueError(t)
+
+    try:
+        return all(ev(e, w, k) == 2 ** (w + k) - 2 ** w for w in range(1, 6) for k in range(1, 6))
+    except (ValueError, TypeError):
+        return False
 
 
 def check_guard(ctx):
